@@ -189,6 +189,14 @@ def zero_test(f, eb, kind):
                 names = [proj_str(p) for p in d['p']]
                 if names[-1] == '.1' and '@Ok' in names:
                     return b, vals[0], t['otherwise']
+            # or `let n = ..; if n == 0`: a comparison of the transferred count with 0
+            e = eb.operand(d)
+            if e[0] == 'bin' and e[1] in ('Eq', 'Ne') and any(y[0] == 'const' and y[1] == 0 for y in (e[2], e[3])):
+                cnt = [y for y in (e[2], e[3]) if y[0] == 'proj' and y[2] and y[2][-1] == '.1' and '@Ok' in y[2]]
+                if cnt:
+                    if e[1] == 'Eq':
+                        return b, vals.get(1, t['otherwise']), vals.get(0)
+                    return b, vals.get(0), vals.get(1, t['otherwise'])
         else:
             e = eb.operand(d)
             if e[0] == 'bin' and e[1] in ('Eq', 'Ne') and e[3][0] == 'const' and e[3][1] == 0 and fam.last_field(e[2]) == 'last_read':
